@@ -1015,6 +1015,29 @@ def frontOKSb (st : Static) (nodes : List AstNode) (d0 : Defs) : Bool :=
               | .error _ => false)))
     | _ => true
 
+/-! ## the two settings of the static-value optimisation, side by side -/
+
+/-- clear the "resolved in the first pass" marks of instructions and data elements -/
+def Defs.unfreeze (d : Defs) : Defs :=
+  { d with instrs := d.instrs.map (fun i => { i with resolved := false }), datas := d.datas.map (fun x => { x with resolved := false }) }
+
+def SymDef.keep (s : SymDef) (b : Bool) : SymDef := { s with resolved := s.resolved && b }
+
+/-- clear those marks and the marks of the symbols outside `H` -/
+def Defs.unfS (H : Nat → Bool) (d : Defs) : Defs :=
+  { d.unfreeze with symbols := (List.range d.symbols.length).map fun i => (d.symbols.getD i none).map fun s => s.keep (H i) }
+
+/-- the same static part with the static-value optimisation switched -/
+def Static.withStatic (st : Static) (b : Bool) : Static := { st with opts := { st.opts with optStatic := b } }
+
+def Opts.staticOff (opts : Opts) : Opts := { opts with optStatic := false }
+
+/-- the two front ends agree: same errors, or the same static part, the same nodes, the same values,
+    the unoptimised one having the marks `markedByBoth` only -/
+def FrontRel (opts : Opts) (fs : SrcFiles) (roots : List (List Char)) : Prop :=
+  frontEnd opts.staticOff fs roots =
+    (frontEnd opts fs roots).map fun x => (x.1.withStatic false, x.2.1, x.2.2.unfS (markedByBoth x.1 x.2.2))
+
 /-- **Fixed-point certificate** (C02): a claimed final state is re-checked by one strict
     (guessing forbidden), non-first pass; it must be accepted, stable, silent and unchanged. -/
 def certify (opts : Opts) (fs : SrcFiles) (roots : List (List Char)) (claimed : StateDump) : Except String Unit :=
